@@ -23,7 +23,9 @@ import time
 VERIF = os.path.dirname(os.path.dirname(os.path.abspath(__file__)))
 COQ = os.path.join(VERIF, "coq")
 BUILD = os.path.join(VERIF, "build")
-TARGET = os.path.join(BUILD, "target")
+# VERIF_TARGET_BASE: share the cargo target directories of another checkout (used by tools/modelmut.py)
+TARGET_BASE = os.environ.get("VERIF_TARGET_BASE", BUILD)
+TARGET = os.path.join(TARGET_BASE, "target")
 HARNESS = os.path.join(VERIF, "harness")
 GUARD = "cucumber_rs_cucumber_verif"
 ALLOWED_AXIOMS = set()  # DESIGN.md §9: the development is closed under the global context
@@ -145,6 +147,14 @@ def proof_step(prop, extra_targets=()):
     """Returns dict(ok, obligations, discharged, problems[], assumptions{}, checker_cmd)."""
     ensure_makefile()
     problems = []
+    if os.environ.get("VERIF_SKIP_PROOFS"):
+        # model-mutation analysis (tools/modelmut.py): only the executable part (models + verdict functions) is built;
+        # never used by a registered command
+        rc, out = sh(["timeout", "1500", "make", "-j4"] + list(extra_targets), cwd=COQ)
+        if rc != 0:
+            problems.append("coq build failed: " + tail(out, 30))
+        return dict(ok=not problems, obligations=0, discharged=0, problems=problems, assumptions={}, theorems=[],
+                    checker_cmd="(proofs skipped: VERIF_SKIP_PROOFS)")
     targets = ["Props/%s.vo" % prop] + list(extra_targets)
     cmd = ["make", "-j16"] + targets
     rc, out = sh(["timeout", "1500"] + cmd, cwd=COQ)
@@ -207,7 +217,7 @@ def tail(s, n):
 
 
 def build_harness(release=False, guard=True, target=None, crate="harness", binname="vh"):
-    target = target or (TARGET if crate == "harness" else os.path.join(BUILD, "target-" + crate))
+    target = target or (TARGET if crate == "harness" else os.path.join(TARGET_BASE, "target-" + crate))
     env = {"CARGO_NET_OFFLINE": "true", "CARGO_TARGET_DIR": target,
            "RUSTFLAGS": ("--cfg %s" % GUARD) if guard else ""}
     cmd = ["cargo", "build", "--offline", "--quiet"] + (["--release"] if release else [])
